@@ -9,7 +9,7 @@ use serde_json::json;
 use crate::ast::*;
 use crate::drive::{self, Ctx, End, Front, M0, M1, M2, M3, RunOpts};
 use crate::engine::{Outcome, Profile, PropMeta, Space, Tier, Violation};
-use crate::gen_prog::{Gen, pair, seq_range};
+use crate::gen_prog::{Gen, pair, seq_range, triple};
 
 pub fn meta(_tier: Tier) -> PropMeta {
     PropMeta {
@@ -137,6 +137,69 @@ fn programs(body_len: u32, main_len: u32) -> Gen<Vec<S>> {
     })
 }
 
+/// Everything the live part of a block can still reach in that block's unreachable suffix:
+/// hoisted function definitions (called from the live prefix), declarations, effects.
+/// host x live prefix x dead suffix (sequences up to `dead_len` over the dead alphabet).
+pub fn dead_suffix_programs(dead_len: u32) -> Gen<Vec<S>> {
+    let x = || var("x");
+    let live_alphabet = || -> Vec<Vec<S>> {
+        vec![
+            vec![],
+            vec![shout(call("lf", vec![]))],
+            vec![make("t", call("lf", vec![]))],
+            vec![S::Expr(call("lf", vec![]))],
+            vec![shout(call("lf2", vec![]))],
+            vec![make("t", call("lf", vec![])), set("t", num("1")), shout(var("t"))],
+        ]
+    };
+    let dead_alphabet = vec![
+        func("lf", &[], vec![S::Ret(Some(num("2")))]),
+        func("lf", &[], vec![set("x", bin(Op::Add, x(), num("10"))), S::Ret(Some(x()))]),
+        func("lf", &[], vec![S::Ret(Some(var("d")))]),
+        func("lf2", &[], vec![S::Ret(Some(call("lf", vec![])))]),
+        make("d", num("1")),
+        shout(st("dead")),
+        set("x", num("77")),
+        S::Expr(call("lf", vec![])),
+    ];
+    let deads = seq_range(&Gen::of(dead_alphabet), 1, dead_len);
+    let hosts = Gen::of((0..7u8).collect::<Vec<_>>());
+    let lives = Gen::of(live_alphabet());
+    triple(&hosts, &lives, &deads, |host, live, dead| {
+        let x = || var("x");
+        // every program declares what the alphabets mention so most combinations are accepted
+        let mut pre = vec![make("x", num("0")), make("d", num("5"))];
+        let defaults = vec![func("lf", &[], vec![S::Ret(Some(num("901")))]), func("lf2", &[], vec![S::Ret(Some(num("902")))])];
+        let wrap = |term: Vec<S>| -> Vec<S> {
+            let mut b = live.clone();
+            b.extend(term);
+            b.extend(dead.clone());
+            b
+        };
+        let body: Vec<S> = match host {
+            0 => vec![func("host", &[], wrap(vec![S::Ret(Some(num("1")))])), shout(call("host", vec![]))],
+            1 => vec![S::Loop(E::Bool(true), wrap(vec![S::Break]))],
+            2 => {
+                let mut b = vec![set("x", bin(Op::Add, x(), num("1")))];
+                b.extend(wrap(vec![S::Next]));
+                vec![S::Loop(bin(Op::Lt, x(), num("2")), b)]
+            }
+            3 => vec![
+                func("host", &[], wrap(vec![S::If(bin(Op::Gt, x(), num("0")), vec![S::Ret(Some(num("1")))], Some(vec![S::Ret(Some(num("2")))]))])),
+                shout(call("host", vec![])),
+            ],
+            4 => vec![func("host", &[], vec![S::Block(wrap(vec![S::Ret(Some(num("1")))])), shout(st("after-block"))]), shout(call("host", vec![]))],
+            5 => vec![func("host", &[], vec![S::If(bin(Op::Eq, x(), num("0")), wrap(vec![S::Ret(Some(num("1")))]), None), S::Ret(Some(num("3")))]), shout(call("host", vec![]))],
+            // control: no terminator, the suffix is live
+            _ => wrap(vec![]),
+        };
+        pre.extend(defaults);
+        pre.extend(body);
+        pre.push(shout(x()));
+        pre
+    })
+}
+
 pub fn programs_for_c06(thorough: bool) -> Gen<Vec<S>> {
     if thorough { programs(2, 3) } else { programs(2, 2) }
 }
@@ -152,6 +215,7 @@ pub fn spaces(tier: Tier) -> Vec<Box<dyn Space>> {
         v.push(Box::new(PruneSpace { id: "prune-b1-m3".into(), generator: programs(1, 3), profile: Profile::Fast, twin: false }));
     }
     v.push(Box::new(PruneSpace { id: "prune-b1-m2".into(), generator: programs(1, 2), profile: Profile::Poison, twin: false }));
+    v.push(Box::new(PruneSpace { id: "dead-suffix".into(), generator: dead_suffix_programs(if t { 3 } else { 2 }), profile: Profile::Fast, twin: true }));
     v.push(Box::new(PruneSpace { id: "twin-b1-m2".into(), generator: programs(1, 2), profile: Profile::Fast, twin: true }));
     v
 }
@@ -262,7 +326,15 @@ pub fn check_text(ctx: &Ctx, text: &str) -> Outcome {
     let unreachable = SemanticError::UnreachableCode.as_str();
     for w in m3.warns.iter().filter(|w| w.message == unreachable && w.severity == "warning") {
         for &(s, e) in &m3.executed_spans {
-            if s >= w.span.0 && e <= w.span.1 {
+            // Function definitions are hoisted: a definition sitting in dead code is reported (the
+            // definition statement is never reached) while its body, a separate unit entered by a
+            // call from live code, may legitimately run. Only the reported statement itself and
+            // what it contains outside nested function bodies is held to "never executes".
+            let in_nested_body = m3
+                .funcdef_spans
+                .iter()
+                .any(|&(fs, fe)| fs >= w.span.0 && fe <= w.span.1 && s >= fs && e <= fe && (s, e) != (fs, fe));
+            if s >= w.span.0 && e <= w.span.1 && !in_nested_body {
                 return Outcome::bad(
                     "differs",
                     Violation::new(
